@@ -24,6 +24,17 @@ CLAIMS = {
         "reference table, and the space-group clause for all 230 numbers; soundness lemmas lift the runs to the declarative "
         "theorems. The known deviations (mm2 setting; 50 space groups) are proved to be deviations, not hidden. The same "
         "clauses are evaluated numerically on the implementation in the Cartesian frame as the failing-input search."),
+ "C07": dict(category="proof", design_ref="DESIGN.md section 5 C07",
+   technique="Lean 4: Dirichlet-cell theory proved once over the reals; per-sector integer certificates regenerated from the live sectors and checked by decide +kernel; differential check of the projection",
+   text="The tiling clause is proved for every one of the 76 sectors (38 point-group objects and their Laue groups): on every "
+        "run the sector normals are regenerated from /repo as integer covectors in lattice coordinates, the harness proposes "
+        "Dirichlet-cell (or two-stage half-space + cell) certificates, the Lean kernel checks them, and a soundness theorem "
+        "lifts each run to: every real direction has an equivalent in the closed sector and a direction strictly inside has no "
+        "other equivalent in the closed sector. Six sectors are proved NOT to be fundamental domains (kernel-checked "
+        "witnesses; known findings). Projection theorems (argmax rule lands in the cell, idempotence with the keep-inside rule, "
+        "result in the orbit, constancy on orbits off the boundary) are proved for the exact-centre model; that the "
+        "implementation, whose sector centres are numeric, lands inside the sector is measured by the correspondence and the "
+        "property predicates on the implementation, not proved."),
 }
 REASONS = {}
 checks = []
